@@ -47,6 +47,10 @@ def ext_wait_for_job(ex):
     prove(ex, 'protocol.no_job_taken_after_the_termination_signal', z3.Not(gb(ex, 'term')))
     prove(ex, 'protocol.previous_job_answered_before_the_next_is_taken',
           z3.Implies(gb(ex, 'have_job'), z3.Or(gb(ex, 'ready_sent'), gb(ex, 'nacked'))))
+    # (the call blocks until something arrives: time passes -- a clock value read before it is not the time of acceptance)
+    later = RealS.fresh('after_waiting')
+    ex.path.assume(later.e > gget(ex, 'now').e)
+    gset(ex, 'now', later)
     k = ex.path.choose(4)
     if k == 1:
         return SNone()
